@@ -1,6 +1,7 @@
 (* C17/C18 trie model runner: reads the same operation script as harness/h_trie.c and prints what the extracted
-   Gallina model (coq/MapTrieModel.v) answers, in the harness' output format.  argv[1] = "asfound" selects the
-   model of the code without fixes/C17-trie-rm-alive.patch (default: the repaired code). *)
+   Gallina model (coq/MapTrieModel.v) answers, in the harness' output format.  argv[1] = three characters 0/1
+   selecting the code variant: trie_rm node test (C17-trie-rm-alive), removed flag (C18-trie-removed-parked),
+   split keeps the node (C18-trie-split-keeps-node); default "111". *)
 let hex_to_key (s : string) : nat list =
   let n = String.length s / 2 in
   List.init n (fun i -> nat_of_int (int_of_string ("0x" ^ String.sub s (2 * i) 2)))
@@ -12,7 +13,8 @@ let oval_str = function None -> "0" | Some v -> string_of_int (int_of_nat v)
 let ni s = nat_of_int (int_of_string s)
 
 let () =
-  let fixed = not (Array.length Sys.argv > 1 && Sys.argv.(1) = "asfound") in
+  let v = if Array.length Sys.argv > 1 && String.length Sys.argv.(1) = 3 then Sys.argv.(1) else "111" in
+  let fixed = { f_rm = (v.[0] = '1'); f_removed = (v.[1] = '1'); f_split = (v.[2] = '1') } in
   let st = ref trie_init in
   let dead = ref false in
   let out = Buffer.create 65536 in
